@@ -65,9 +65,10 @@ Fixpoint index_of (m : Z) (ns : list Z) : nat :=
 
 Definition list_min (ns : list Z) : Z := fold_left Z.min ns (hd 0 ns).
 
-(* None = np.amin of an empty selection raises (the pass has no record in range) *)
+(* records numbered 0 are dropped first; None = np.amin of an empty selection raises (no record left) *)
+Definition nonzero (r : rec) : bool := negb (fst r =? 0).
 Definition pod_sanitize (max : Z) (l : list rec) : option (list rec) :=
-  let b := base_sanitize max l in
+  let b := filter nonzero (base_sanitize max l) in
   match b with
   | [] => None
   | first :: _ =>
@@ -75,8 +76,7 @@ Definition pod_sanitize (max : Z) (l : list rec) : option (list rec) :=
       let mn := list_min (map Z.abs ns) in
       let k := index_of mn ns in
       let lastn := last ns 0 in
-      let b' := if fst first =? lastn + 1 then skipn k b ++ firstn k b else skipn k b in
-      Some (filter (fun r => negb (fst r =? 0)) b')
+      Some (if fst first =? lastn + 1 then skipn k b ++ firstn k b else skipn k b)
   end.
 
 Definition klm_sanitize (max : Z) (l : list rec) : list rec := base_sanitize max l.
